@@ -91,8 +91,77 @@ def load_table():
     return idx
 
 
+ARG_TOKENS = ["Foo", "pub", "pub(crate)", ",", "=", "?", "Send", "true", "false", "ref", "dyn", "no_deps", "export", "debug",
+              "mock_api", "unimock", "mockall", "delegate_by", "Self", "Borrow", "1", "\"s\"", "a::b", "()", "#", "'a", "_", "self", "crate"]
+ARG_TARGETS = {
+    "fn": "fn f{i}<D>(deps: &D) {{}}",
+    "mod": "mod m{i} {{ pub fn g<D>(deps: &D) {{}} }}",
+    "trait": "trait T{i} {{ fn g(&self); }}",
+    "impl": "impl TImpl for X{i} {{ fn g<D>(deps: &D) {{}} }}",
+}
+
+
+def option_grammar_sweep(rep, tier):
+    """Small-scope exhaustive sweep of attribute argument lists: every token sequence up to a length bound over an
+    alphabet of option words, punctuation and junk, on all four targets. Whatever the macro does with it — accept or
+    reject — it must not panic, and a rejection must come through the diagnostic channel (one compile, all
+    diagnostics attributed by line)."""
+    import itertools, shutil
+    from ..common import CACHE, REPO
+    maxlen = 2 if tier == "quick" else 3
+    alphabet = ARG_TOKENS if tier == "thorough" else ARG_TOKENS[:22]
+    seqs = [()]
+    for n in range(1, maxlen + 1):
+        if n == 3:
+            # length 3: full product over the core words only (keeps the sweep at a few thousand lists)
+            core = ["Foo", ",", "=", "?", "Send", "true", "ref", "no_deps", "mock_api", "delegate_by", "Self", "pub"]
+            seqs += list(itertools.product(core, repeat=3))
+        else:
+            seqs += list(itertools.product(alphabet, repeat=n))
+    d = os.path.join(CACHE, "gen", "c15_args_%s" % tier)
+    os.makedirs(os.path.join(d, "src"), exist_ok=True)
+    with open(os.path.join(d, "Cargo.toml"), "w") as f:
+        f.write('[package]\nname = "wit_c15a"\nversion = "0.0.0"\nedition = "2021"\n\n[dependencies]\nentrait = { path = "%s" }\n\n[workspace]\n' % REPO)
+    shutil.copy(os.path.join(REPO, "Cargo.lock"), os.path.join(d, "Cargo.lock"))
+    lines = ["#![allow(dead_code, unused)]", "use entrait::*;", "pub trait TImpl<T> {}"]
+    where = {}
+    i = 0
+    for tgt, tmpl in ARG_TARGETS.items():
+        for seq in seqs:
+            args = " ".join(seq)
+            pre = "pub struct X%d; " % i if tgt == "impl" else ""
+            lines.append("%s#[entrait(%s)] %s" % (pre, args, tmpl.format(i=i)))
+            where[len(lines)] = (tgt, args)
+            i += 1
+    with open(os.path.join(d, "src", "lib.rs"), "w") as f:
+        f.write("\n".join(lines) + "\n")
+    _f, diags, wall = run_driver(d, "wit_c15a")
+    rep.count("argument_lists_swept", i)
+    by_line = {}
+    for dg in diags:
+        if dg["level"] != "error":
+            continue
+        for sp in dg["spans"]:
+            if sp["primary"]:
+                by_line.setdefault(sp["line"], []).append(dg)
+    npanic = 0
+    for ln, (tgt, args) in where.items():
+        for dg in by_line.get(ln, []):
+            if "panicked" in dg["message"] or any("panicked" in (c or "") for c in dg["children"]):
+                npanic += 1
+                words = sorted(set(args.split()))
+                rep.add("W-PANIC", "args %s tokens {%s}" % (tgt, " ".join(words)),
+                        "the macro panicked on `#[entrait(%s)]` applied to a %s: %s" % (args, tgt, "; ".join([dg["message"]] + [c for c in dg["children"] if c][:1])))
+    # a panic without usable span
+    for dg in diags:
+        if dg["level"] == "error" and "panicked" in dg["message"] and not any(sp["primary"] and sp["line"] in where for sp in dg["spans"]):
+            rep.add("W-PANIC", "args unattributed", "proc-macro panic without an attributable span: %s" % dg["message"])
+    rep.count("argument_lists_rejected", sum(1 for ln in where if ln in by_line))
+
+
 def run(tier):
     rep = Report("C15", tier, "other")
+    option_grammar_sweep(rep, tier)
     # ---- (a) panic-site audit of the generator
     ctl = panic_sites(load_controls())
     names = set(fn_of(b["path"]).split("::")[-1] for (k, b, c) in ctl if k[0] == "site")
@@ -126,6 +195,7 @@ def run(tier):
         else:
             rep.count("discharged_reviewed", len(occ))
     rep.floor("panic_capable_sites", 60)
+    rep.floor("argument_lists_swept", 1500)
     # ---- (b) negative witnesses: each misuse is answered by a diagnostic at the module, never a panic
     neg_dir = os.path.join(WIT, "neg")
     _f, diags, wall = run_driver(neg_dir, "wit_neg")
@@ -179,7 +249,7 @@ def run(tier):
                     rep.add("W-PANIC", "pos/%s panic" % mod, "the macro panicked while expanding witness module `%s`: %s"
                             % (mod, "; ".join([d["message"]] + [c for c in d["children"] if c][:1])))
     rep.coverage.update({
-        "explanation": "(a) inventory of every panic-capable operation in the MIR of entrait_macros (core::panicking::*, unwrap/expect, indexing, Punctuated/Vec::insert, Ident::new / Lifetime::new / parse_quote! / format_ident!, overflow and bounds asserts); machine-discharged: constant valid identifier/lifetime literals, insert at index 0; the rest must match the reviewed table rules/c15_discharge.json keyed by (callee, type arguments | message) with confirmed counts. (b) %d negative witnesses (documented misuses with their message and token position, unsupported item kinds, malformed option lists): one compile, every module must receive a diagnostic, none may be a proc-macro panic. (c) no pos-corpus module fails with a proc-macro panic." % len(mods),
+        "explanation": "(a) inventory of every panic-capable operation in the MIR of entrait_macros (core::panicking::*, unwrap/expect, indexing, Punctuated/Vec::insert, Ident::new / Lifetime::new / parse_quote! / format_ident!, overflow and bounds asserts); machine-discharged: constant valid identifier/lifetime literals, insert at index 0; the rest must match the reviewed table rules/c15_discharge.json keyed by (callee, type arguments | message) with confirmed counts. (b) %d negative witnesses (documented misuses with their message and token position, unsupported item kinds, malformed option lists): one compile, every module must receive a diagnostic, none may be a proc-macro panic. (c) no pos-corpus module fails with a proc-macro panic. (d) small-scope exhaustive sweep of attribute argument lists (all token sequences up to length 2 / 3 over an alphabet of option words, punctuation and junk) on fn, mod, trait and impl targets: accepted or rejected, never a panic." % len(mods),
         "obligations": rep.counters.get("panic_capable_sites", 0) + len(mods),
         "discharged": rep.counters.get("panic_capable_sites", 0) + len(mods) - len(rep.findings),
         "checker_cmd": "./check C15 quick",
